@@ -310,6 +310,40 @@ def explore(res, name, eol, mode, depth, deadline):
                 for op in ops:
                     nxt.append(hist + (op,))
         frontier = nxt
+    # hidden-state probes one step beyond the depth bound: [select rows ; read a field ; write (compacts the selection in
+    # place) ; replace another field] and [select ; replace ; write ; replace] -- the written bytes are judged as above
+    idx_ops = [o for o in ops if o[0] in ('slice', 'step2', 'rev', 'mask', 'fancy')]
+    gets = [o for o in ops if o[0] == 'get']
+    reps = [o for o in ops if o[0] == 'replace']
+    probes = [(i, g, ('write',), r_) for i in idx_ops for g in gets for r_ in reps[:2]]
+    probes += [(i, r1, ('write',), r2) for i in idx_ops for r1 in reps[:2] for r2 in reps[:2] if r1 != r2]
+    for hist in probes if depth < 4 else []:
+        if deadline.expired():
+            res.capped = True
+            return
+        r = run_history(name, f, data, mode, list(hist), fields, kinds, rows)
+        if r['status'] == 'disabled':
+            continue
+        res.evaluations += 1
+        res.traces += 1
+        res.planned += 1
+        res.transitions += len(hist) + 1
+        case = {'root': name, 'eol': eol, 'mode': mode, 'hist': [list(o) for o in hist]}
+        feats = {'root': name, 'eol': eol, 'index_only': False, 'has_replace': True, 'has_concat': False,
+                 'empty_table': len(r['model'].t) == 0, 'probe': 'select;%s;write;replace' % hist[1][0]}
+        if r['status'] == 'raises':
+            e = r['exc']
+            res.fail('operation-raises-where-model-defines-a-result', case,
+                     dict(feats, failing_op=r['op'][0], exc=exc_name(e), frame='%s:%s' % raising_frame(e)),
+                     expected='a table / bytes', observed=repr(e)[:300], tb=tb_string(e))
+            res.outcome('raises:' + r['op'][0])
+            continue
+        v = judge_write(name, r['out'], r['model'], src, texts, fields, kinds)
+        if v is not None:
+            res.fail(v[0], case, feats, expected=v[1], observed=v[2])
+            res.outcome('bad:' + v[0])
+        else:
+            res.outcome('ok:probe')
     res.sample({'root': name, 'eol': eol, 'mode': mode, 'file': data.decode('latin1'), 'depth': depth, 'states': len(seen)})
 
 
